@@ -1,0 +1,16 @@
+//go:build verif
+
+package token
+
+// Exports for the C09 (token scope, window and permissions) correspondence
+// driver.  Add-only.
+
+// VerifTokenMatchGroup is matchGroup: does the audience path pth cover group?
+func VerifTokenMatchGroup(pth, group string, includeSubgroups bool) bool {
+	return matchGroup(pth, group, includeSubgroups)
+}
+
+// VerifTokenStatefulMatch is (*Stateful).match.
+func VerifTokenStatefulMatch(t *Stateful, group string) bool {
+	return t.match(group)
+}
